@@ -196,6 +196,34 @@ def job(args):
             except AbstractRaise as e:
                 ob('L3', f"boundary.{ri}/radial-periodic" if radial else f"boundary.{ri}/admissible-flags", radial and e.exc == 'ValueError',
                    f"periodic flags {sorted(per)}: raises {e.exc}", rfi.loc())
+        # L3r: the refusal is repeatable - an existing variable whose radial face is flagged periodic afterwards is refused by
+        # every apply_BCs / solveExplicitPDE / solvePDE call, not only by the first one (the dirty flags are what route the
+        # request to the check; they must survive the exception)
+        if cls in RADIAL and vals and vals[0] == ():
+            cvm = sm.cls('CellVariable').methods['apply_BCs']
+            for entry in ('apply_BCs', 'solveExplicitPDE'):
+                bcr = w.boundary_conditions()
+                for f_ in FACES:
+                    for c_ in ('_a', '_b', '_c'):
+                        bcr.attrs[f_].attrs[c_].attrs['_modified'] = False
+                pr = w.cell_variable('phi', bcr)
+                pr.attrs['BCsTerm_precalc'] = True
+                pr.attrs['_BCsTerm'] = w.call('boundary', 'boundaryConditionsTerm', bcr)
+                pr.attrs['_value'].frozen = None
+                w.interp.set_attr(bcr.attrs['left'], 'periodic', True, None)
+                outcomes = []
+                for attempt in (1, 2, 3):
+                    try:
+                        if entry == 'apply_BCs':
+                            w.interp.call_function(cvm, [pr], self_obj=pr)
+                        else:
+                            from .c12 import flat_vector
+                            w.call('pdesolver', 'solveExplicitPDE', pr, Rat.atom(('dt',)), Box(flat_vector(w, 'rhs')))
+                        outcomes.append('returned')
+                    except AbstractRaise as e:
+                        outcomes.append(e.exc)
+                ob('L3', f"cell.CellVariable.apply_BCs/radial-periodic/repeated[{entry}]", all(o == 'ValueError' for o in outcomes),
+                   f"left face flagged periodic on an existing variable, three consecutive {entry} calls: {outcomes}", cvm.loc())
         return dict(obs=obs, units=sorted(units), samples=samples)
     if kind == 'small':
         sizes = args[3]
